@@ -143,9 +143,10 @@ Proof.
       - cbn [concat]. rewrite app_length. lia.
       - constructor; auto. apply Hp. }
     assert (He1 : entries s1 = entries s ++ [(g_maxTID s, p)]).
-    { unfold entries. cbn [g_out g_cur s1 rev]. rewrite tag_app. rewrite <- app_assoc. f_equal. f_equal.
-      - cbn [tag]. rewrite rev_length. unfold adj_cur at 2. cbn [g_cont g_lastMax s1]. fold (adj_cur s).
-        unfold nt in Hnt1. rewrite Hnt1. reflexivity. }
+    { unfold entries. assert (Ea : adj_cur s1 = adj_cur s) by reflexivity. rewrite Ea.
+      change (g_out s1) with (g_out s). change (g_cur s1) with (p :: g_cur s). cbn [rev].
+      rewrite tag_app, <- app_assoc. f_equal. f_equal. cbn [tag]. rewrite rev_length.
+      unfold nt in Hnt1. rewrite Hnt1. reflexivity. }
     assert (Hnt_s1 : (nt s1 = g_maxTID s1 + 1)%N).
     { unfold nt, adj_cur in *. cbn [g_cont g_lastMax g_cur g_maxTID s1 length]. lia. }
     assert (Hrestlen : length rest = length lids - right) by (unfold rest; apply skipn_length).
@@ -159,18 +160,24 @@ Proof.
       * intros Hr. rewrite Hnt2. destruct rest; [congruence|]. cbn [is_nil]. rewrite Hm2. reflexivity.
       * intros Hr. rewrite Hnt2. rewrite Hr. cbn [is_nil]. rewrite Hm2. reflexivity.
       * apply Forall_skipn; auto.
-      * exists s', (p :: ps). splits; auto.
-        -- rewrite Hm'. rewrite Hm2. reflexivity.
-        -- rewrite He', He2, He1, Hm2. cbn [g_maxTID s1 map]. rewrite <- app_assoc. reflexivity.
-        -- cbn [concat]. rewrite Hc'. auto.
+      * exists s', (p :: ps).
+        split; [exact Eg|]. split; [exact Hi'|]. split; [exact Hl'|]. split; [exact Hn'|].
+        split; [rewrite Hm', Hm2; reflexivity|].
+        split; [rewrite He', He2, He1, Hm2; change (g_maxTID s1) with (g_maxTID s); cbn [map];
+                rewrite <- app_assoc; reflexivity|].
+        split; [cbn [concat]; rewrite Hc'; exact Hcat|].
+        constructor; auto.
     + (* block not full: the token is exhausted *)
       assert (Hrest : rest = []).
       { apply length_zero_iff_nil. cbn [g_len s1] in Enot. unfold right in *. lia. }
       rewrite Hrest in *.
       destruct f as [|f']; [simpl in Hfuel; lia|]. cbn [gen_token].
-      exists s1, [p]. splits; auto.
-      * cbn [g_len s1] in *. unfold right in *. lia.
-      * cbn [concat]. rewrite app_nil_r in *. auto.
+      exists s1, [p].
+      split; [reflexivity|]. split; [exact Hinv1|].
+      split; [cbn [g_len s1] in *; unfold right in *; lia|].
+      split; [exact Hnt_s1|]. split; [reflexivity|]. split; [exact He1|].
+      split; [cbn [concat]; rewrite app_nil_r in *; auto|].
+      constructor; auto.
 Qed.
 
 (* ------------------------------------------------------------------ between tokens *)
